@@ -82,8 +82,13 @@ def run_c09(ctx):
     if drift:
         ctx.drift.append('%d of %d sorter runs do not follow MergeSort.tla (comparison sequence or result differs): the algorithm changed' % (
             len(drift), ntrace))
+    # histories: every pair of consecutive calls among the Sortable methods and the
+    # mutations of List / Array / Catalog, judged by World.tla
+    import worldchecks
+    wc = ((2, 3, 0, 1), (2, 3, 0, 1)) if ctx.quick else ((3, 3, 0, 1), (2, 4, 0, 1))
+    wcov = worldchecks.run_pairs(ctx, [('sort', wc[0]), ('sortA', wc[1])], ['int'] if ctx.quick else ['int', 'string', 'any'])
     nontrivial = len({(json.dumps(x['input']), x['ranker'], x['op'], x['via']) for x in recs if len(x['input']) >= 2})
-    cov = {'evaluations': len(recs), 'distinct_nontrivial': nontrivial, 'exhaustive': True,
+    cov = {'world_histories': wcov,'evaluations': len(recs), 'distinct_nontrivial': nontrivial, 'exhaustive': True,
            'rule': 'every array of length 0..%d over %s (enumerated by TLC) and %d seeded random arrays up to length 5000, each through '
                    'the sorter and the Array / List / Catalog methods with 7 rankers, plus reverse (once, twice) and shuffle; '
                    'non-trivial = distinct (input, ranker, operation, API) with at least two elements' % (maxlen, vals, nrand),
